@@ -34,7 +34,10 @@ var MetaFields = map[string]*schema.FieldDefinition{
 			},
 		},
 		Resolve: func(ctx schema.FieldContext) (interface{}, error) {
-			return ctx.Schema.NamedTypes()[ctx.Arguments["name"].(string)], nil
+			if t := ctx.Schema.NamedTypes()[ctx.Arguments["name"].(string)]; t != nil && t.TypeRequiredFeatures().IsSubsetOf(ctx.Features) {
+				return t, nil
+			}
+			return nil, nil
 		},
 	},
 }
@@ -264,7 +267,13 @@ func init() {
 			Cost: schema.FieldResolverCost(0),
 			Resolve: func(ctx schema.FieldContext) (interface{}, error) {
 				if t, ok := ctx.Object.(*schema.ObjectType); ok {
-					return t.ImplementedInterfaces, nil
+					ret := make([]*schema.InterfaceType, 0, len(t.ImplementedInterfaces))
+					for _, iface := range t.ImplementedInterfaces {
+						if iface.RequiredFeatures.IsSubsetOf(ctx.Features) {
+							ret = append(ret, iface)
+						}
+					}
+					return ret, nil
 				}
 				return nil, nil
 			},
@@ -273,14 +282,22 @@ func init() {
 			Type: schema.NewListType(schema.NewNonNullType(TypeType)),
 			Cost: schema.FieldResolverCost(0),
 			Resolve: func(ctx schema.FieldContext) (interface{}, error) {
+				var possibleTypes []*schema.ObjectType
 				switch t := ctx.Object.(type) {
 				case *schema.InterfaceType:
-					return ctx.Schema.InterfaceImplementations(t.Name), nil
+					possibleTypes = ctx.Schema.InterfaceImplementations(t.Name)
 				case *schema.UnionType:
-					return t.MemberTypes, nil
+					possibleTypes = t.MemberTypes
 				default:
 					return nil, nil
 				}
+				ret := make([]*schema.ObjectType, 0, len(possibleTypes))
+				for _, obj := range possibleTypes {
+					if obj.RequiredFeatures.IsSubsetOf(ctx.Features) {
+						ret = append(ret, obj)
+					}
+				}
+				return ret, nil
 			},
 		},
 		"enumValues": {
